@@ -521,7 +521,7 @@ def check(run):
         mcs = [("mc-2p", 2, 3, 3, False), ("mc-2p-writer", 2, 3, 3, True), ("mc-3p", 3, 2, 2, False)]
     acts = {}
     for name, np_, mv, mn, uw in mcs:
-        res = run.tlc("ModuleFile", mc_cfg(np_, mv, mn, uw), name=name, coverage=True, timeout=3000)
+        res = run.tlc("ModuleFile", mc_cfg(np_, mv, mn, uw), name=name, coverage=True, timeout=3000, heap="12g" if thorough else None)
         if res.violated:
             run.spec_violation(res)
         for a, (d, g) in res.coverage.items():
